@@ -58,10 +58,8 @@ def gen(ctx):
     else:
         cfgs = [("Gen_Bitmap.single.cfg", None), ("Gen_Bitmap.clone.cfg", 300000)]
     for cfg, limit in cfgs:
-        r = tlc_must_pass(TLA, os.path.join(SPEC, cfg), "gen_bitmap_" + ctx.pid, workers=8, timeout=1800)
+        r, inits, edges = gen_run(TLA, os.path.join(SPEC, cfg), "gen_bitmap_" + ctx.pid, workers=8, timeout=1800)
         ctx.add_mc(r, cfg)
-        inits = parse_tagged(r.out_path, "INIT")
-        edges = parse_tagged(r.out_path, "EDGE")
         if len(edges) != r.generated - len(inits) and len(edges) < r.generated - len(inits) - 5:
             pass  # constraint-cut transitions are not emitted; counts need not match exactly
         tests = edges_to_tests(inits, edges, limit, ctx.seed)
